@@ -192,8 +192,8 @@ Deliver(i) ==
   /\ LET x == fly[i]
          live == HasProto /\ x.c = p.c /\ ~p.dead
          (* "genuine" is what an observer can verify: a handshake reply proves knowledge of the key the CLIENT PRESENTED last - a stale reply to an earlier
-            authenticate(good) that arrives after authenticate(bad) was called proves nothing under the credentials now in use *)
-         pre == <<[e |-> "deliver", c |-> x.c, m |-> x.m, k |-> x.k, gen |-> x.gen /\ ~(x.m = "HSR" /\ use = "bad"), live |-> live, i |-> i]>>
+            authenticate(good) that arrives after authenticate(bad) was called proves nothing under the credentials now in use (a send presents the stored ones again) *)
+         pre == <<[e |-> "deliver", c |-> x.c, m |-> x.m, k |-> x.k, gen |-> x.gen /\ ~(x.m = "HSR" /\ use = "bad" /\ op # "send"), live |-> live, i |-> i]>>
          pp == IF live THEN [p EXCEPT !.q = Append(p.q, x)] ELSE p IN
      IF x.m = "NOISE" THEN      \* nothing is queued, nobody is woken: the bytes are skipped when the next start marker arrives (V3Stream!Extract)
           /\ fly' = RemoveAt(fly, i) /\ p' = p /\ evs' = pre
